@@ -54,10 +54,11 @@ class T:
 
 def _bin(n):
     def f(s, o):
-        return NotImplemented if hasattr(o, "_wrap_result") else T(n, s, o)
+        # vectors handle the operation themselves; NumPy arrays (of tokens) broadcast element-wise through their reflected operator
+        return NotImplemented if (hasattr(o, "_wrap_result") or isinstance(o, numpy.ndarray)) else T(n, s, o)
 
     def r(s, o):
-        return NotImplemented if hasattr(o, "_wrap_result") else T(n, o, s)
+        return NotImplemented if (hasattr(o, "_wrap_result") or isinstance(o, numpy.ndarray)) else T(n, o, s)
     return f, r
 
 
